@@ -302,7 +302,13 @@ func Encode(n *Node) []byte { return appendNode(nil, n, false) }
 func Canon(n *Node) []byte { return appendNode(nil, n, true) }
 
 func appendNode(dst []byte, n *Node, canon bool) []byte {
-	if n.Raw != nil && !canon {
+	if n.Raw != nil {
+		if canon {
+			// canonicalise the item the raw bytes hold (verbatim if they do not parse)
+			if p, err := Parse(n.Raw); err == nil {
+				return appendNode(dst, p, true)
+			}
+		}
 		return append(dst, n.Raw...)
 	}
 	w := n.Width
